@@ -70,6 +70,9 @@ def rule_folded_constants(chk):
         return      # C13 fails closed on the anchor
     if not c13.rule_op_eval(chk, ev):
         c13.rule_op(chk, ev)
+    ec = f.fn("evaluate_cast", c13.TY)
+    if ec:
+        c13.rule_cast(chk, ec)
 
 
 MI_TYPES = ["Bool", "Int32", "UInt32", "Float32", "Int323", "Float322", "Float324", "Float322x2", "Int324x4", "Enum", "Struct", "Float32[4]", "Float324[2]"]
